@@ -58,3 +58,87 @@ Proof.
   intros Hv Hn. destruct (is_cpred n (n_key n)) eqn:E; [|reflexivity].
   destruct (validate_dag_sound g Hv) as (rank & Hr). specialize (Hr n n Hn Hn E). lia.
 Qed.
+
+(* ---------- completeness: a graph whose control dependencies have a topological order is accepted ---------- *)
+Lemma indeg_all_zero rem t : (forall n, In n rem -> cmult n t = O) -> indeg rem t = O.
+Proof.
+  unfold indeg. induction rem as [|m rem IH]; simpl; intros H; [reflexivity|].
+  rewrite (H m (or_introl eq_refl)), IH; [reflexivity|]. intros n Hn. apply H. now right.
+Qed.
+
+Lemma min_rank (rank : key -> nat) (rem : list node) :
+  rem <> [] -> exists m, In m rem /\ forall n, In n rem -> (rank (n_key m) <= rank (n_key n))%nat.
+Proof.
+  induction rem as [|a rem IH]; [congruence|]. intros _.
+  destruct rem as [|b rem'].
+  - exists a. split; [now left|]. intros n [<-|[]]. lia.
+  - destruct (IH ltac:(discriminate)) as (m & Hm & Hmin).
+    destruct (Nat.le_gt_cases (rank (n_key a)) (rank (n_key m))) as [Hle|Hgt].
+    + exists a. split; [now left|]. intros n [<-|Hn]; [lia|]. specialize (Hmin n Hn). lia.
+    + exists m. split; [now right|]. intros n [<-|Hn]; [lia|]. now apply Hmin.
+Qed.
+
+Lemma filter_length_lt {A} (f : A -> bool) (l : list A) a :
+  In a l -> f a = false -> (List.length (filter f l) < List.length l)%nat.
+Proof.
+  induction l as [|b l IH]; simpl; [intros []|].
+  intros [->|Hin] Hf.
+  - rewrite Hf. assert (H : (List.length (filter f l) <= List.length l)%nat).
+    { clear. induction l as [|c l IH]; simpl; [lia|]. destruct (f c); simpl; lia. }
+    lia.
+  - specialize (IH Hin Hf). destruct (f b); simpl; lia.
+Qed.
+
+Lemma kahn_complete (rank : key -> nat) fuel : forall rem,
+  (forall n m, In n rem -> In m rem -> (cmult n (n_key m) > 0)%nat -> (rank (n_key n) < rank (n_key m))%nat) ->
+  (List.length rem < fuel)%nat -> kahn fuel rem = [].
+Proof.
+  induction fuel as [|fuel IH]; intros rem Hr Hlen; [lia|]. simpl.
+  destruct rem as [|a rem'] eqn:Erem; [reflexivity|]. rewrite <- Erem in *.
+  assert (Hne : rem <> []) by (rewrite Erem; discriminate).
+  destruct (min_rank rank rem Hne) as (m & Hm & Hmin).
+  assert (Hfree : is_free rem m = true).
+  { unfold is_free. apply Nat.eqb_eq. apply indeg_all_zero. intros n Hn.
+    destruct (cmult n (n_key m)) eqn:E; [reflexivity|].
+    assert (Hlt : (rank (n_key n) < rank (n_key m))%nat) by (apply Hr; [assumption..|lia]).
+    specialize (Hmin n Hn). lia. }
+  destruct (filter (is_free rem) rem) as [|f0 fr] eqn:Ef.
+  - exfalso. assert (Hin : In m (filter (is_free rem) rem)) by (apply filter_In; auto). rewrite Ef in Hin. destruct Hin.
+  - apply IH.
+    + intros n k Hn Hk. apply filter_In in Hn. apply filter_In in Hk. apply Hr; tauto.
+    + assert (Hlt : (List.length (filter (fun n => negb (is_free rem n)) rem) < List.length rem)%nat).
+      { apply filter_length_lt with (a := m); [assumption|]. now rewrite Hfree. }
+      lia.
+Qed.
+
+Lemma cmult_is_cpred n t : (cmult n t > 0)%nat -> is_cpred n t = true.
+Proof.
+  unfold cmult, is_cpred. intros H. apply orb_true_iff.
+  destruct (count_occ N.eq_dec (n_csucc n) t) eqn:Ec.
+  - right. apply memb_in. simpl in H.
+    destruct (filter (fun b => memb t (b_ends b)) (n_branches n)) as [|b l] eqn:Ef; [simpl in H; lia|].
+    assert (Hb : In b (filter (fun b => memb t (b_ends b)) (n_branches n))) by (rewrite Ef; now left).
+    apply filter_In in Hb. destruct Hb as [Hb Ht]. apply memb_in in Ht.
+    unfold branch_ends_of. apply in_flat_map. exists b. split; [assumption|]. simpl. exact Ht.
+  - left. apply memb_in. apply (count_occ_In N.eq_dec). lia.
+Qed.
+
+Theorem validate_dag_complete g (rank : key -> nat) :
+  (forall n m, In n (real_nodes g) -> In m (real_nodes g) -> is_cpred n (n_key m) = true ->
+               (rank (n_key n) < rank (n_key m))%nat) ->
+  validate_dag g = true.
+Proof.
+  intros Hr. unfold validate_dag.
+  rewrite (kahn_complete rank (S (List.length (real_nodes g))) (real_nodes g)); [reflexivity| |lia].
+  intros n m Hn Hm Hc. apply Hr; [assumption..|]. now apply cmult_is_cpred.
+Qed.
+
+(* validateDAG accepts exactly the graphs whose control dependencies are acyclic *)
+Theorem validate_dag_iff g :
+  validate_dag g = true <->
+  exists rank : key -> nat,
+    forall n m, In n (real_nodes g) -> In m (real_nodes g) -> is_cpred n (n_key m) = true ->
+                (rank (n_key n) < rank (n_key m))%nat.
+Proof.
+  split; [apply validate_dag_sound|]. intros (rank & Hr). now apply (validate_dag_complete g rank).
+Qed.
